@@ -98,6 +98,7 @@ class Inliner:
         try:
             locals_ = [dict(l) for l in f.d.get("locals", [])]
             blocks = copy.deepcopy(f.d.get("blocks", []))
+            _desugar_adaptors(self.prog, locals_, blocks)
             i = 0
             while i < len(blocks) and len(blocks) < MAX_BLOCKS:
                 b = blocks[i]
@@ -183,6 +184,128 @@ class Inliner:
                            "inl_arg": key})
         blocks[bi]["term"] = {"k": "goto", "target": bb, "line": line, "exp": False, "inl_call": key}
         blocks.extend(cb)
+
+
+ITER_NEXT = "core::iter::traits::iterator::Iterator::next"
+TRY_FOR_EACH = "core::iter::traits::iterator::Iterator::try_for_each"
+FOR_EACH = "core::iter::traits::iterator::Iterator::for_each"
+
+
+def _std_callee(model, path, name, self_ty=None, trait=None):
+    c = {k: v for k, v in model.items() if k not in ("resolved", "args")}
+    c.update({"path": path, "full": path, "name": name, "local": False, "never": False, "track_caller": False,
+              "args": [self_ty] if self_ty else [], "trait": trait or path.rsplit("::", 1)[0], "self_ty": self_ty})
+    return c
+
+
+def _desugar_adaptors(prog, locals_, blocks):
+    """`it.try_for_each(|x| body)` / `it.for_each(|x| body)` with a closure built in this function are the loop they
+    abbreviate: `while let Some(x) = it.next() { body(x)? }`.  The call is replaced by that loop (synthetic blocks calling
+    `next`, the closure - which the inliner then expands in place - and, for try_for_each, `Try::branch` /
+    `from_residual`), so every analysis sees the pushes and early exits of the body where they happen (DESIGN 3.11)."""
+    for bi in range(len(blocks)):
+        b = blocks[bi]
+        t = b["term"]
+        if t["k"] != "call" or b["cleanup"] or not t.get("callee") or len(t.get("args", [])) != 2:
+            continue
+        path = t["callee"]["path"]
+        if path not in (TRY_FOR_EACH, FOR_EACH) or t.get("target") is None or t["dest"]["p"]:
+            continue
+        ck = _closure_of_operand(blocks, t["args"][1])
+        cf = prog.fns.get(ck) if ck else None
+        if cf is None or cf.kind != "Closure" or cf.arg_count != 2 or not cf.d.get("blocks"):
+            continue
+        line = t.get("line")
+        model = t["callee"]
+        item_ty = cf.d["locals"][2]["ty"]
+        ret_ty = cf.d["locals"][0]["ty"]
+        it_op, cl_op = t["args"]
+        dest, target = t["dest"], t["target"]
+        by_value = path == FOR_EACH           # for_each consumes the iterator, try_for_each borrows it
+
+        def new_local(ty):
+            locals_.append({"ty": ty, "name": None, "synthetic": True})
+            return len(locals_) - 1
+
+        def blk(stmts, term):
+            term.setdefault("line", line)
+            term.setdefault("exp", False)
+            for s in stmts:
+                s.setdefault("line", line)
+                s.setdefault("exp", False)
+            blocks.append({"stmts": stmts, "term": term, "cleanup": False})
+            return len(blocks) - 1
+
+        def pl(l, p=None):
+            return {"l": l, "p": p or []}
+
+        def asg(l, rv):
+            return {"k": "assign", "dst": pl(l), "rv": rv}
+        l_it = new_local(locals_[it_op["place"]["l"]]["ty"] if it_op["k"] in ("move", "copy") and not it_op["place"]["p"] else "?")
+        l_cl = new_local(cf.d["locals"][1]["ty"].lstrip("&").replace("mut ", "", 1).strip())
+        l_opt = new_local("core::option::Option<%s>" % item_ty)
+        l_d = new_local("isize")
+        l_x = new_local(item_ty)
+        l_tup = new_local("(%s,)" % item_ty)
+        l_clref = new_local(cf.d["locals"][1]["ty"])
+        l_r = new_local(ret_ty)
+        self_ty = model.get("self_ty")
+        # header: opt = next(it)
+        if by_value:
+            l_itref = new_local("&mut " + (locals_[l_it]["ty"] or "?"))
+            hdr_stmts = [asg(l_itref, {"k": "ref", "mut": True, "fake": False, "place": pl(l_it)})]
+            next_arg = {"k": "move", "place": pl(l_itref)}
+        else:
+            hdr_stmts = []
+            next_arg = {"k": "copy", "place": pl(l_it)}
+        n0 = len(blocks)
+        h, sw, none_b, some_b = n0, n0 + 1, n0 + 2, n0 + 3
+        after_call = n0 + 4
+        next_callee = _std_callee(model, ITER_NEXT, "next", self_ty)
+        next_callee["full"] = "<%s as core::iter::traits::iterator::Iterator>::next" % self_ty
+        blk(hdr_stmts, {"k": "call", "callee": next_callee, "func": {"k": "const", "ty": "fn item (synthetic)"}, "args": [next_arg],
+                        "dest": pl(l_opt), "target": sw, "unwind": None})
+        blk([asg(l_d, {"k": "discr", "place": pl(l_opt), "adt": "core::option::Option"})],
+            {"k": "switch", "op": {"k": "move", "place": pl(l_d)}, "ty": "isize", "targets": [[0, none_b], [1, some_b]], "otherwise": none_b})
+        unit = {"k": "const", "ty": "()"}
+        if path == TRY_FOR_EACH:
+            done = [{"k": "assign", "dst": copy.deepcopy(dest),
+                     "rv": {"k": "aggr", "kind": "adt", "adt": "core::result::Result", "variant": "Ok", "variant_idx": 0,
+                            "args": [], "fields": ["0"], "ops": [unit]}}] if ret_ty.startswith("core::result::Result<") else \
+                   [{"k": "assign", "dst": copy.deepcopy(dest),
+                     "rv": {"k": "aggr", "kind": "adt", "adt": "core::option::Option", "variant": "Some", "variant_idx": 1,
+                            "args": [], "fields": ["0"], "ops": [unit]}}]
+        else:
+            done = [{"k": "assign", "dst": copy.deepcopy(dest), "rv": {"k": "use", "op": unit}}]
+        blk(done, {"k": "goto", "target": target})
+        callee_cl = _std_callee(model, "core::ops::function::FnMut::call_mut", "call_mut", None, "core::ops::function::FnMut")
+        callee_cl["resolved"] = {"path": ck, "full": ck, "local": True, "args": [], "kind": "Item"}
+        blk([asg(l_x, {"k": "use", "op": {"k": "move", "place": pl(l_opt, [["downcast", "Some", 1], ["field", 0, "0", item_ty]])}}),
+             asg(l_tup, {"k": "aggr", "kind": "tuple", "ops": [{"k": "move", "place": pl(l_x)}]}),
+             asg(l_clref, {"k": "ref", "mut": True, "fake": False, "place": pl(l_cl)})],
+            {"k": "call", "callee": callee_cl, "func": {"k": "const", "ty": "fn item (synthetic)"}, "args": [{"k": "move", "place": pl(l_clref)}, {"k": "move", "place": pl(l_tup)}],
+             "dest": pl(l_r), "target": after_call, "unwind": None})
+        if path == TRY_FOR_EACH:
+            l_cf = new_local("core::ops::control_flow::ControlFlow<?, ()>")
+            l_d2 = new_local("isize")
+            l_res = new_local("?residual")
+            br, sw2, brk = after_call, after_call + 1, after_call + 2
+            blk([], {"k": "call", "callee": _std_callee(model, "core::ops::try_trait::Try::branch", "branch", ret_ty, "core::ops::try_trait::Try"),
+                     "func": {"k": "const", "ty": "fn item (synthetic)"}, "args": [{"k": "move", "place": pl(l_r)}], "dest": pl(l_cf), "target": sw2, "unwind": None})
+            blk([asg(l_d2, {"k": "discr", "place": pl(l_cf), "adt": "core::ops::control_flow::ControlFlow"})],
+                {"k": "switch", "op": {"k": "move", "place": pl(l_d2)}, "ty": "isize", "targets": [[0, h], [1, brk]], "otherwise": h})
+            fr = _std_callee(model, "core::ops::try_trait::FromResidual::from_residual", "from_residual", ret_ty,
+                             "core::ops::try_trait::FromResidual")
+            fr["full"] = "<%s as core::ops::try_trait::FromResidual<?>>::from_residual" % ret_ty
+            blk([asg(l_res, {"k": "use", "op": {"k": "move", "place": pl(l_cf, [["downcast", "Break", 1], ["field", 0, "0", "?residual"]])}})],
+                {"k": "call", "callee": fr, "func": {"k": "const", "ty": "fn item (synthetic)"}, "args": [{"k": "move", "place": pl(l_res)}], "dest": copy.deepcopy(dest),
+                 "target": target, "unwind": None})
+        else:
+            blk([], {"k": "goto", "target": h})
+        b["stmts"] = b["stmts"] + [
+            {"k": "assign", "dst": pl(l_it), "rv": {"k": "use", "op": it_op}, "line": line, "exp": False},
+            {"k": "assign", "dst": pl(l_cl), "rv": {"k": "use", "op": cl_op}, "line": line, "exp": False}]
+        b["term"] = {"k": "goto", "target": h, "line": line, "exp": False, "desugared": path}
 
 
 def _operand_is_ref(locals_, op):
